@@ -213,11 +213,11 @@ func TestC41Probe(t *testing.T) { _ = reassemblyCapDefect(t) }
 func TestC41(t *testing.T) {
 	rec := evid.New("C41", "rapid: (a) one stream: 1-40 packets (valid IPv4/IPv6 of 20..9000 bytes, sizes boundary-heavy around 1-4 frame payloads; interleaved invalid ones: wrong version, wrong length field, too short, empty), "+
 		"frame size from the session minimum upward (boundary-heavy), write bursts vs. trickle -> real encoder -> frames in order -> real ingress worker: emitted == valid packets in order. "+
-		"(b) 1-3 streams (distinct stream ids), per-frame fault script (drop / duplicate / swap with next / delay by up to 8 positions), streams interleaved: every emitted packet is byte-identical to a sent valid packet of some stream. "+
+		"(b) 1-3 streams (distinct stream ids from the whole 20-bit field, differing mostly in one bit), per-frame fault script (drop / duplicate / swap with next / delay by up to 8 positions), streams interleaved: every emitted packet is byte-identical to a sent valid packet of some stream. "+
 		"Non-trivial: a packet spanning >= 3 frames, or a fault hitting a frame that carries a fragment.")
 	defer rec.Flush(t)
 	rec.Assume("encoder and worker are driven through the verif hook exactly as Session/IngressServer drive them (frame buffers from the real pool)", "virtual time via testing/synctest only orders the encoder's blocking reads")
-	rec.Require("a_spans3", "a_invalid_skipped", "a_min_mtu", "a_ipv6", "b_drop", "b_dup", "b_swap", "b_delay", "b_multistream", "b_fault_on_fragment")
+	rec.Require("a_spans3", "a_invalid_skipped", "a_min_mtu", "a_ipv6", "b_drop", "b_dup", "b_swap", "b_delay", "b_multistream", "b_fault_on_fragment", "b_streams_differ_in_high_bits_only")
 	t.Run("inorder", func(t *testing.T) {
 		rapid.Check(t, func(rt *rapid.T) {
 			mtu := genMTU(rt)
@@ -300,6 +300,25 @@ func TestC41(t *testing.T) {
 			}
 			var perStream [][][]byte
 			var desc []string
+			// stream ids from the whole 20-bit field; the ids of one case differ from the first in a drawn,
+			// mostly small, set of bits (ids that share their low or their high bits)
+			ids := []uint32{uint32(rapid.IntRange(0, 0xfffff).Draw(rt, "streamID"))}
+			for len(ids) < nStreams {
+				d := uint32(1) << rapid.IntRange(0, 19).Draw(rt, "streamBit")
+				if rapid.IntRange(0, 3).Draw(rt, "moreBits") == 0 {
+					d |= uint32(rapid.IntRange(1, 0xfffff).Draw(rt, "streamBits"))
+				}
+				id, dup := ids[0]^d, false
+				for _, x := range ids {
+					dup = dup || x == id
+				}
+				if !dup {
+					ids = append(ids, id)
+					if id&0xffff == ids[0]&0xffff {
+						labels["b_streams_differ_in_high_bits_only"] = true
+					}
+				}
+			}
 			for s := 0; s < nStreams; s++ {
 				mtu := genMTU(rt)
 				if mtu > 600 && rapid.Bool().Draw(rt, "smallmtu") {
@@ -311,7 +330,7 @@ func TestC41(t *testing.T) {
 						sent[string(p.data)] = true
 					}
 				}
-				fr := encode(t, 7, uint32(0x100+s), mtu, pkts)
+				fr := encode(t, 7, ids[s], mtu, pkts)
 				// fault script
 				type slot struct {
 					f     []byte
